@@ -28,7 +28,8 @@ RULE = ("cases: every type expression with <=3 wrappers over the 5 specified sca
         "camel-case transform, `fields` setter, clone; one or two steps), checked against the derived schema's own declaration with the source's values "
         "in the stream, then the source again — including NEUTRAL derivations (unrelated extend_schema, clone, identity visibility transform), "
         "extend enum / extend input, with enums whose internal values are falsy (0, False, \"\") and non-identity custom scalars: the same requests "
-        "must hand the resolvers the source's internal values; plus TREES: nested selections over an interface with two implementations that give the field "
+        "must hand the resolvers the source's internal values; a DETERMINISTIC probe (own fixed PRNG) applies every derivation kind once to the fixed source "
+        "WITHOUT declared enum defaults and compares enum internal values and the python names of kept / camel-renamed input fields and arguments; plus TREES: nested selections over an interface with two implementations that give the field "
         "different argument sets/defaults, lists of objects, resolver errors, arguments rejected at depth 2-5; non-trivial = distinct (registry, argument type, default, route, value) whose value is not a "
         "bare scalar-at-scalar success (i.e. involves null, a wrapper, an enum, an input object, a boundary or a rejection)")
 ASSUMPTIONS = [
